@@ -363,6 +363,61 @@ def run(chk):
         b = bytes.fromhex(sw_bad)
         chk.violation("a stamped frame of length field %d, flags 0x%02x carries header checksum 0x%02x, which is not the CRC-8 of its "
                       "length/type/flags bytes: %s" % (b[2] | (b[3] << 8), b[5], b[6], sw_bad[:40]), {"frame": sw_bad}, key="stamp-crc8")
+    # the SAME command object sent again and again (to_frame() each time, as api.request does): every transmission is
+    # stamped with the number current at that moment, whatever earlier transmissions of that object carried
+    rs_bad = None
+    try:
+        import zigpy_zboss.commands as _c
+        from vloop import VLoop, Wire
+        import zigpy_zboss.config as conf
+        from zigpy_zboss import uart as U
+        from impl_link import build_frame_bytes
+        for cmd in (_c.NcpConfig.GetModuleVersion.Req(TSN=7), _c.NcpConfig.GetZigbeeRole.Req(TSN=1)):
+            loop = VLoop()
+            asyncio.set_event_loop(loop)
+            try:
+                cfg = conf.CONFIG_SCHEMA({conf.CONF_DEVICE: {conf.CONF_DEVICE_PATH: "/dev/null"}})
+
+                class Api:
+                    def frame_received(self, f):
+                        pass
+
+                    def connection_lost(self, e):
+                        pass
+                proto = U.ZbossNcpProtocol(cfg[conf.CONF_DEVICE], Api())
+                w = Wire()
+                proto.connection_made(w)
+                m = 0
+                for k in range(8):
+                    want = 0 if m == 0 else (m - 1) % 3 + 1
+                    for fr in cmd.to_frame().handle_tx_fragmentation():
+                        loop.create_task(proto.send(fr))
+                        loop.settle()
+                    b = bytes(w.log[-1])
+                    d = chk.model.batch(["specdec %s" % b.hex()])[0]
+                    chk.evaluations += 1
+                    if d == "NONE" or int(d[2:].split(",")[1]) != (0xC0 | (want << 2)):
+                        rs_bad = rs_bad or (type(cmd).__qualname__, k, want, b.hex(), d)
+                    if k == 5:      # close + reconnect in the middle: numbering restarts at 0
+                        loop.advance(U.ACK_TIMEOUT + 0.001)
+                        proto.close()
+                        w = Wire()
+                        proto.connection_made(w)
+                        m = 0
+                        continue
+                    proto.data_received(build_frame_bytes(None, b"", 1 | (want << 4)))
+                    loop.settle()
+                    m += 1
+            finally:
+                asyncio.set_event_loop(None)
+                loop.close()
+    except Exception as e:  # noqa
+        rs_bad = rs_bad or ("harness", -1, -1, "", "%s: %s" % (type(e).__name__, e))
+    chk.oblige("monitor:same-command-object-sent-repeatedly-is-stamped-afresh", rs_bad is None, repr(rs_bad) if rs_bad else "")
+    if rs_bad:
+        chk.violation("transmission %d of the same %s object should carry packet number %d (flags 0x%02x); on the wire: %s (%s)"
+                      % (rs_bad[1] + 1, rs_bad[0], rs_bad[2], 0xC0 | (max(rs_bad[2], 0) << 2), rs_bad[3], rs_bad[4]),
+                      {"case": rs_bad}, key="resend-same-object")
     chk.oblige("tieB:overlapping-sends-vs-model(%d histories)" % len(ov), ov_tie is None, json.dumps(ov_tie)[:300] if ov_tie else "")
     chk.oblige("monitor:number-current-at-write-time(overlapping sends)", ov_mon is None, json.dumps(ov_mon)[:300] if ov_mon else "")
     if ov_tie and not ov_mon and not mon_bad:
